@@ -138,6 +138,13 @@ def make_edits(lines, ms, n_tag):
             new = list(lines)
             new[li["idx"]] = (li["id"], " " * li["indent"] + CHANGE[li["name"]].format(n=n_tag))
             out.append((f"change-{which}:{li['name']}", new, "reject"))
+        # same text, other indentation: the line moves into / out of a body, which also changes a started line
+        leafs = [li for li in info if li["id"] in ids and not li["blank"] and not li["opener"] and li["idx"] > 0]
+        if leafs:
+            li = leafs[-1]
+            new = list(lines)
+            new[li["idx"]] = (li["id"], " " * (li["indent"] + 4 if li["indent"] == 0 else li["indent"] - 4) + li["raw"].strip())
+            out.append((f"change-{which}-indent:{li['name']}", new, "reject"))
     return out
 
 
@@ -197,7 +204,7 @@ def check_edit(lines0, prefix, t, kind, new_lines, expect, horizon, base_run, fi
     before, after = rec["mstate_before"], rec["mstate_after"]
     kclass = ("2nd-" if prefix else "") + kind.split(":")[0]
     if expect == "reject":
-        which = kind.split(":")[0].split("-")[1]
+        which = "-".join(kind.split(":")[0].split("-")[1:])
         if rec["accepted"]:
             out.append((f"C01:accepted-change-of-{which}-line:{kind.split(':')[1]}" + (":2nd" if prefix else ""),
                         f"edit '{kind}' at tick {t} changed a {which} line and was accepted"))
@@ -298,7 +305,7 @@ def check_edit(lines0, prefix, t, kind, new_lines, expect, horizon, base_run, fi
 
 
 SECOND_FIRST = ("append-end", "append-body", "change-unstarted", "resave")
-SECOND_KINDS = ("append-end", "append-body", "change-started", "change-executed", "resave", "change-unstarted")
+SECOND_KINDS = ("append-end", "append-body", "change-started", "change-executed", "change-started-indent", "change-executed-indent", "resave", "change-unstarted")
 
 
 def explore_program(item):
